@@ -15,7 +15,7 @@ import time
 from . import env
 from . import notebook as nbmod
 
-WALL_LIMIT_S = float(os.environ.get("VERIF_WALL_LIMIT", "240"))
+WALL_LIMIT_S = float(os.environ.get("VERIF_WALL_LIMIT", "150"))
 
 
 class HarnessError(Exception):
